@@ -22,6 +22,9 @@ pub struct NodeDecl {
     pub via_block: bool,
     /// time of a self message scheduled in stage 0 (handled before tear-down)
     pub ping_ns: Option<u64>,
+    /// at_sim_end of this module reports an error (all other modules are torn down all the same)
+    #[serde(default)]
+    pub end_err: bool,
 }
 
 #[derive(Debug, Clone, Serialize, Deserialize, PartialEq)]
@@ -62,6 +65,7 @@ struct Node {
     parent_path: Option<String>,
     children: Vec<(String, String)>,
     ping_ns: Option<u64>,
+    end_err: bool,
 }
 
 impl Node {
@@ -113,6 +117,9 @@ impl Module for Node {
 
     fn at_sim_end(&mut self) -> Result<(), RuntimeError> {
         LOG.with(|l| l.borrow_mut().push(Ev::End(self.idx)));
+        if self.end_err {
+            return Err(RuntimeError::from(std::io::Error::other("module reports a failure at the end")));
+        }
         Ok(())
     }
 }
@@ -142,6 +149,7 @@ fn make_node(case: &Case, i: usize) -> Node {
         parent_path: d.parent.map(|p| case.path(p)),
         children: (0..case.nodes.len()).filter(|c| case.nodes[*c].parent == Some(i)).map(|c| (case.nodes[c].name.clone(), case.path(c))).collect(),
         ping_ns: d.ping_ns,
+        end_err: d.end_err,
     }
 }
 
@@ -225,8 +233,9 @@ pub fn execute(case: &Case) -> (Vec<Finding>, usize) {
             if !nodes_ok {
                 f.push(("nodes", "Sim::nodes() differs from the declared set of paths".into()));
             }
-            if !ok {
-                f.push(("run-error", "run() returned an error".into()));
+            let err_expected = case.nodes.iter().any(|d| d.end_err);
+            if ok == err_expected {
+                f.push(("run-error", format!("run() returned {}, {} module(s) report an error from at_sim_end", if ok { "Ok" } else { "an error" }, case.nodes.iter().filter(|d| d.end_err).count())));
             }
         }
     }
@@ -428,6 +437,7 @@ pub fn gen_tree(rng: &mut Rng, n: usize) -> Vec<NodeDecl> {
             },
             via_block: rng.chance(1, 5),
             ping_ns: if rng.chance(1, 2) { Some(1 + rng.below(1_000_000)) } else { None },
+            end_err: rng.chance(1, 12),
         });
     }
     nodes
